@@ -118,6 +118,10 @@ def run(ctx):
 
 
 def known_still_fails(k):
+    if k.get("signature", "").startswith("F9:"):
+        from .h2e2e import f9_witness
+
+        return f9_witness()
     if k.get("signature") == "F14:app-queue-full-deadlock":
         from .c06 import f14_witness
 
